@@ -292,3 +292,102 @@ func c07FreshErr(c *Ctx, r *Report, a *Anchors) {
 	r.check("C07.FRESHERR", "request-time error appends take errors made for the request at hand", token.NoPos, true, fmt.Sprintf("%d appends of single errors in %d request-time functions examined", n, len(fns)))
 	r.floor("C07.FRESHERR", "appends of single errors in request-time functions", n, 10)
 }
+
+// c07Pool: bytes written to the caller's writer are produced by this call. A buffer taken from a sync.Pool
+// still holds whatever its last user left in it unless it is reset when it is TAKEN (a reset before it is put
+// back is skipped by every early return): every *bytes.Buffer obtained from (*sync.Pool).Get is Reset() (or
+// Truncate(0)) at a point that dominates every other use of it.
+func c07Pool(c *Ctx, r *Report) {
+	r.rule("C07.POOL", "a *bytes.Buffer taken from a sync.Pool is reset at a point dominating every other use of it")
+	n := 0
+	for _, fn := range c.allFns {
+		if !c.inPkg(fn) {
+			continue
+		}
+		for _, ci := range callsIn(fn) {
+			f := calleeObj(ci)
+			if f == nil || f.Pkg() == nil || f.Pkg().Path() != "sync" || f.Name() != "Get" || recvTypeName(f) != "Pool" {
+				continue
+			}
+			gv, ok := ci.(ssa.Value)
+			if !ok || gv.Referrers() == nil {
+				continue
+			}
+			// the buffer: the asserted value
+			var bufs []ssa.Value
+			for _, ref := range *gv.Referrers() {
+				if ta, ok := ref.(*ssa.TypeAssert); ok && isBytesBufferPtr(ta.AssertedType) {
+					if ta.CommaOk {
+						if ex := extractOf(ta, 0); ex != nil {
+							bufs = append(bufs, ex)
+						}
+					} else {
+						bufs = append(bufs, ta)
+					}
+				}
+			}
+			for _, buf := range bufs {
+				n++
+				r.fnSeen(fnName(fn))
+				var resets, uses []ssa.Instruction
+				if buf.Referrers() != nil {
+					for _, ref := range *buf.Referrers() {
+						switch t := ref.(type) {
+						case ssa.CallInstruction:
+							if m := calleeObj(t); m != nil && (m.Name() == "Reset" || m.Name() == "Truncate") && recvTypeName(m) == "Buffer" && callRecv(t) == buf {
+								resets = append(resets, t)
+								continue
+							}
+							if _, isDefer := t.(*ssa.Defer); isDefer {
+								continue // handing it back
+							}
+							uses = append(uses, t)
+						case *ssa.MakeInterface, *ssa.ChangeInterface, *ssa.Store, *ssa.UnOp:
+							uses = append(uses, ref)
+						}
+					}
+				}
+				bad := ""
+				var pos = ci.Pos()
+				for _, u := range uses {
+					dom := false
+					for _, rs := range resets {
+						if instrDominates(rs, u) {
+							dom = true
+						}
+					}
+					if !dom {
+						up := u.Pos()
+						if !up.IsValid() {
+							if v, ok := u.(ssa.Value); ok && v.Referrers() != nil {
+								for _, r2 := range *v.Referrers() {
+									if r2.Pos().IsValid() {
+										up = r2.Pos()
+										break
+									}
+								}
+							}
+						}
+						bad = "a use of the pooled buffer at " + c.pos(up) + " is not preceded by a reset on every path"
+						if up.IsValid() {
+							pos = up
+						}
+						break
+					}
+				}
+				r.check("C07.POOL", fmt.Sprintf("%s: pooled buffer is reset when taken", fnName(fn)), pos, bad == "",
+					bad+": after an early return (a failing writer) the buffer goes back filled, and the next response starts with the text of the one that could not be delivered")
+			}
+		}
+	}
+	r.Notes = append(r.Notes, fmt.Sprintf("C07.POOL: %d pooled buffers", n))
+}
+
+func isBytesBufferPtr(t types.Type) bool {
+	p, ok := t.(*types.Pointer)
+	if !ok {
+		return false
+	}
+	n, ok := p.Elem().(*types.Named)
+	return ok && n.Obj().Pkg() != nil && n.Obj().Pkg().Path() == "bytes" && n.Obj().Name() == "Buffer"
+}
